@@ -188,6 +188,10 @@ func init() {
 			for i := range r {
 				r[i] = [2]int{4 * c.rng.Intn(17), 4 * c.rng.Intn(17)}
 			}
+			atOrigin := n%2 == 0
+			if atOrigin { // a vertex at the origin itself: along the edges that start there nothing hides a slope's last place
+				r[c.rng.Intn(k)] = [2]int{0, 0}
+			}
 			var qs [][2]int
 			for i := range r {
 				a, b := r[i], r[(i+1)%k]
@@ -208,6 +212,9 @@ func init() {
 				continue
 			}
 			c09Off = c09Offsets[c.rng.Intn(len(c09Offsets))]
+			if atOrigin || c.rng.Intn(3) == 0 { // where they are: next to the origin the last places of a slope decide, far away they are rounded off
+				c09Off = [2]float64{}
+			}
 			rot := c.rng.Intn(k)
 			c09Run(c, "ring", [][][][2]int{{r}}, qs)
 			c09Run(c, "ring", [][][][2]int{{append(append([][2]int{}, r[rot:]...), r[:rot]...)}}, qs)
